@@ -1,10 +1,14 @@
 #!/bin/bash
-# try_seeded.sh <seeded-name> [<check-id>]: apply seeded/<name>/patch.diff to /repo, run the quick check, revert.
+# try_seeded.sh <seeded-name> [<check-id>]: apply seeded/<name>/patch.diff in a scratch worktree, run the quick check
+# against it (VERIF_REPO), remove the worktree. /repo is not touched.
 set -u
 name=$1; pid=${2:-${name%%-*}}
-[ -z "$(git -C /repo status --porcelain)" ] || { echo "/repo dirty" >&2; exit 2; }
-git -C /repo apply /verif/seeded/$name/patch.diff || exit 2
-cd /verif && ./check $pid quick > /tmp/try_$name.log 2>&1; rc=$?
-git -C /repo checkout -- .
+wt=/tmp/try-$name-$pid
+git -C /repo worktree remove --force $wt >/dev/null 2>&1
+git -C /repo worktree add --detach $wt HEAD >/dev/null 2>&1 || exit 2
+git -C $wt apply /verif/seeded/$name/patch.diff || { git -C /repo worktree remove --force $wt; exit 2; }
+cd /verif && VERIF_REPO=$wt ./check $pid quick > /tmp/try_$name.log 2>&1; rc=$?
+git -C /repo worktree remove --force $wt
+tag=$(echo "$wt" | md5sum | cut -c1-8); rm -rf /verif/alt/run-$tag ~/.cache/verif-overlay-$tag ~/.cache/verif-vmap-$tag
 echo "$name vs $pid: exit=$rc violations=$(grep -c '^VIOLATION' /tmp/try_$name.log)"
 grep -m3 "kind=" /tmp/try_$name.log | cut -c1-400
